@@ -287,11 +287,12 @@ Definition ref_frame (h : fields) : Z + framing :=
     | _ => inl 7
     end
   else
-    match get_all s_cl h with
+    let cls := get_all s_cl h in
+    match cls with
     | [] => inr (FrLen 0)
-    | f :: r =>
-      if forallb (fun c => bytes_eqb (go_trim f) (go_trim c)) r then
-        match parse_dec (go_trim f) with Some n => inr (FrLen n) | None => inl 8 end
+    | _ =>
+      if cl_consistent cls then
+        match parse_dec (cl_first cls) with Some n => inr (FrLen n) | None => inl 8 end
       else inl 8
     end.
 
@@ -318,19 +319,16 @@ Definition validate (V : validators) (hd : head) : Z + reqmeta :=
   | Some (m, t, p) =>
     if negb (v_method V m) then inl 2
     else if negb (v_version V p) then inl 4
-    else match target_class m t with
-    | 0 => inl 98
-    | 3 => inl 5
-    | _ =>
-      if h_leadws hd && negb (v_leadws V) then inl 6
-      else match collect_fields (v_field V) (h_lines hd) with
-      | None => inl 6
-      | Some fs =>
-        if negb (h_complete hd) then inl 1
-        else match v_frame V fs with
-        | inl c => inl c
-        | inr fr => inr {| r_method := m; r_target := t; r_proto := p; r_fields := fs; r_framing := fr |}
-        end
+    else if target_class m t =? 0 then inl 98
+    else if target_class m t =? 3 then inl 5
+    else if h_leadws hd && negb (v_leadws V) then inl 6
+    else match collect_fields (v_field V) (h_lines hd) with
+    | None => inl 6
+    | Some fs =>
+      if negb (h_complete hd) then inl 1
+      else match v_frame V fs with
+      | inl c => inl c
+      | inr fr => inr {| r_method := m; r_target := t; r_proto := p; r_fields := fs; r_framing := fr |}
       end
     end
   end.
